@@ -13,7 +13,8 @@ Name(t) == "n" \o ToString(t) \o ".test"
 Tx(t) == "name:n" \o ToString(t) \o "."
 Q(t, nest) == LET b == [op |-> "query", t |-> t, name |-> Name(t), qt |-> 1] IN
               IF nest = "query" THEN b @@ [nest |-> [op |-> "query", t |-> 100 + t, name |-> Name(100 + t), qt |-> 1]]
-              ELSE IF nest = "cancel" THEN b @@ [nest |-> [op |-> "cancel"]] ELSE b
+              ELSE IF nest = "cancel" THEN b @@ [nest |-> [op |-> "cancel"]]
+              ELSE IF nest = "setservers" THEN b @@ [nest |-> [op |-> "setservers", csv |-> "10.0.0.2"]] ELSE b
 R(t, k, deliver) == [op |-> "reply", tx |-> Tx(t), kind |-> k] @@ (IF deliver = 0 THEN [deliver |-> 0] ELSE <<>>)
 F == IF fault = "none" THEN <<>> ELSE <<[op |-> "failnext", what |-> fault, errno |-> 111]>>
 Tmo == <<[op |-> "adv", to |-> "deadline"], [op |-> "process"]>>
